@@ -27,6 +27,15 @@ std::unique_ptr<ndsparse> splinetable<Alloc>::grideval(const DoubleContCont& coo
 	for (size_t i=0; i<size; i++)
 		if (coefficients[i] != 0)
 			nnz++;
+	if (nnz == 0) {
+		//the table is zero everywhere, so the result lists no points at all
+		//(an ndsparse cannot be created without room for at least one entry)
+		std::unique_ptr<ndsparse> empty(new ndsparse(1, ndim));
+		empty->rows = 0;
+		for (unsigned int dim = 0; dim < ndim; dim++)
+			empty->ranges[dim] = coords[dim].size();
+		return empty;
+	}
 	std::unique_ptr<ndsparse> nd(new ndsparse(nnz, ndim));
 	{
 		std::vector<unsigned int> indices(ndim);
